@@ -1261,8 +1261,10 @@ def rotate(phi, theta, psi, ra, dec):
     else:
         is_scalar = True
 
-    ra = np.atleast_1d(ra)
-    dec = np.atleast_1d(dec)
+    # always compute in double precision: numpy evaluates deg2rad of
+    # small-integer and float32 arrays in float32 (int8 even in float16)
+    ra = np.array(ra, ndmin=1, dtype="f8")
+    dec = np.array(dec, ndmin=1, dtype="f8")
     if ra.size != dec.size:
         raise ValueError(
             "ra[%d] has different size than " "dec[%d]" % (ra.size, dec.size)
